@@ -369,17 +369,34 @@ def mainArm (env : Env.T) (conv : String → Elem → Outcome Val) (r : ROuter) 
       finishOuter (soOf env r fields el) pst attrsVal (validateOf r el) (lateOf env conv r el)
         (earlyParts (fun m => r.magic.contains m) el) (fun kvs => .record r.base.ident (Env.sortKvs kvs))
 
+/-- the newtype arm's own `supports(..)` check (`__validate_body(&input.data)?` in the newtype arm
+    of `FromDeriveInputImpl::to_tokens`): only a `FromDeriveInput` receiver on a derive input has one -/
+def newtypeValidate (r : ROuter) (el : Elem) : Outcome Unit :=
+  match r.trait_, el, r.supports with
+  | .fromDeriveInput, .deriveInput d, some diss => diss.validateBody d.body.shape
+  | _, _, _ => .ok ()
+
 theorem runOuter_eq (env : Env.T) (run : String → Elem → Outcome Val) (conv : String → Elem → Outcome Val)
     (r : ROuter) (el : Elem) :
     Env.runOuter env run conv r el =
       (match r.base.data with
        | .struct .tuple [f] =>
-           (match f.ty with
-            | .recv inner => (run inner el).map (fun v => .record r.base.ident [("0", v)])
-            | _ => .err (Err.custom "unsupported newtype inner"))
+           (match newtypeValidate r el with
+            | .err e => .err e
+            | .panic m => .panic m
+            | .ok () =>
+                (match f.ty with
+                 | .recv inner => (run inner el).map (fun v => .record r.base.ident [("0", v)])
+                 | _ => .err (Err.custom "unsupported newtype inner")))
        | .struct _ fields => mainArm env conv r fields el
        | .enum _ => .err (Err.custom "element-level receivers are structs")) := by
   rfl
+
+theorem newtypeValidate_returns (r : ROuter) (el : Elem) : (newtypeValidate r el).Returns := by
+  unfold newtypeValidate
+  split
+  · exact validateBody_returns _ _
+  · exact Outcome.returns_ok _
 
 theorem attrsFn_returns (fw : Forwarded) (as : List Attr) : (attrsFn fw as).Returns := by
   generalize hg : attrsFn fw = g
@@ -525,9 +542,15 @@ theorem runOuter_returns (env : Env.T) (run : String → Elem → Outcome Val) (
   | struct style fields =>
       have hlk := hl style fields hd
       split
-      · split
-        · exact (hrun _ _).map _
-        · exact Outcome.returns_err _
+      · have hv := newtypeValidate_returns r el
+        cases hnv : newtypeValidate r el with
+        | err e => exact Outcome.returns_err _
+        | panic m => exact absurd hnv (hv m)
+        | ok u =>
+            simp only []
+            split
+            · exact (hrun _ _).map _
+            · exact Outcome.returns_err _
       · rename_i heq
         cases heq
         exact mainArm_returns env conv hconv r _ hlk el
